@@ -316,3 +316,154 @@ Proof.
     apply in_map_iff. exists s. split; [reflexivity|].
     apply (window_slots_spec p _ _ _ _ Hok Hr). tauto.
 Qed.
+
+(* ============================================================================================ *)
+(* 2. Lists: membership tests, the canonical sort, the duties map.                              *)
+
+Lemma memN_In : forall x l, memN x l = true <-> In x l.
+Proof. intros. unfold memN. apply memb_spec. apply N.eqb_eq. Qed.
+
+Lemma memN_false : forall x l, memN x l = false <-> ~ In x l.
+Proof. intros x l. rewrite <- memN_In. destruct (memN x l); split; congruence. Qed.
+
+Lemma insert_by_perm : forall (A : Type) (key : A -> N) x l, Permutation (insert_by key x l) (x :: l).
+Proof.
+  intros A key x l. induction l as [|y l IH]; cbn; [reflexivity|].
+  destruct (key x <=? key y); [reflexivity|].
+  rewrite IH. apply perm_swap.
+Qed.
+
+Lemma sort_by_perm : forall (A : Type) (key : A -> N) l, Permutation (sort_by key l) l.
+Proof.
+  intros A key l. induction l as [|x l IH]; cbn; [reflexivity|].
+  unfold sort_by in *. cbn. rewrite insert_by_perm. constructor. exact IH.
+Qed.
+
+Lemma sort_by_In : forall (A : Type) (key : A -> N) l x, In x (sort_by key l) <-> In x l.
+Proof.
+  intros. split; apply Permutation_in; [apply sort_by_perm | symmetry; apply sort_by_perm].
+Qed.
+
+Lemma sort_by_nil : forall (A : Type) (key : A -> N) l, sort_by key l = [] <-> l = [].
+Proof.
+  intros A key l. split; intro H.
+  - apply Permutation_nil. rewrite <- H. apply sort_by_perm.
+  - subst. reflexivity.
+Qed.
+
+(* the first entry for key k *)
+Fixpoint get (k : N) (m : list duty) : option (list N) :=
+  match m with
+  | [] => None
+  | (k', v) :: m' => if k' =? k then Some v else get k m'
+  end.
+
+Lemma get_put : forall k v m k', get k' (put k v m) = if k =? k' then Some v else get k' m.
+Proof.
+  intros k v m k'. induction m as [|[k0 v0] m IH]; cbn.
+  - reflexivity.
+  - destruct (N.eqb_spec k0 k) as [->|Hne]; cbn.
+    + destruct (N.eqb_spec k k'); reflexivity.
+    + rewrite IH. destruct (N.eqb_spec k0 k'), (N.eqb_spec k k'); try reflexivity. congruence.
+Qed.
+
+Lemma put_keys : forall k v m, NoDup (map fst m) -> NoDup (map fst (put k v m)) .
+Proof.
+  intros k v m. induction m as [|[k0 v0] m IH]; cbn; intro H.
+  - constructor; [intros []|constructor].
+  - inversion H as [|? ? Hn Hm]; subst.
+    destruct (N.eqb_spec k0 k) as [->|Hne]; cbn.
+    + constructor; assumption.
+    + constructor; [|apply IH; exact Hm].
+      intro Hin. apply Hn. clear - Hin Hne.
+      induction m as [|[k1 v1] m IH]; cbn in *.
+      * destruct Hin as [?|[]]. congruence.
+      * destruct (N.eqb_spec k1 k) as [->|Hne1]; cbn in *; [destruct Hin; [congruence | auto]|].
+        destruct Hin; auto.
+Qed.
+
+Lemma get_In : forall m k v, NoDup (map fst m) -> (In (k, v) m <-> get k m = Some v).
+Proof.
+  induction m as [|[k0 v0] m IH]; cbn; intros k v H.
+  - split; [intros [] | discriminate].
+  - inversion H as [|? ? Hn Hm]; subst.
+    destruct (N.eqb_spec k0 k) as [->|Hne].
+    + split.
+      * intros [Heq|Hin]; [congruence|]. exfalso. apply Hn. apply (in_map fst) in Hin. exact Hin.
+      * intros Heq. left. congruence.
+    + rewrite <- (IH k v Hm). split; [intros [Heq|Hin]; [congruence | exact Hin] | auto].
+Qed.
+
+(* the committee positions of validator v according to the node's answer: those of its LAST entry *)
+Fixpoint last_duty (ds : list duty) (v : N) : option (list N) :=
+  match ds with
+  | [] => None
+  | d :: ds' => match last_duty ds' v with
+                | Some x => Some x
+                | None => if fst d =? v then Some (snd d) else None
+                end
+  end.
+
+Lemma fold_put_get : forall ds m v,
+  get v (fold_left (fun m d => put (fst d) (snd d) m) ds m) =
+    match last_duty ds v with Some x => Some x | None => get v m end.
+Proof.
+  induction ds as [|d ds IH]; intros m v; cbn; [reflexivity|].
+  rewrite IH. destruct (last_duty ds v); [reflexivity|]. rewrite get_put.
+  destruct (fst d =? v); reflexivity.
+Qed.
+
+Lemma fold_put_keys : forall ds m, NoDup (map fst m) ->
+  NoDup (map fst (fold_left (fun m d => put (fst d) (snd d) m) ds m)).
+Proof.
+  induction ds as [|d ds IH]; intros m H; cbn; [exact H|]. apply IH, put_keys, H.
+Qed.
+
+Lemma message_indices_NoDup : forall ds, NoDup (map fst (message_indices ds)).
+Proof.
+  intros ds. unfold message_indices.
+  eapply Permutation_NoDup; [apply Permutation_map; symmetry; apply sort_by_perm|].
+  apply fold_put_keys. constructor.
+Qed.
+
+(* messageIndices[v] = the positions of v's last duty entry *)
+Lemma message_indices_In : forall ds v ps, In (v, ps) (message_indices ds) <-> last_duty ds v = Some ps.
+Proof.
+  intros ds v ps. unfold message_indices. rewrite sort_by_In.
+  rewrite get_In by (apply fold_put_keys; constructor).
+  rewrite fold_put_get. cbn. destruct (last_duty ds v); split; congruence.
+Qed.
+
+Lemma last_duty_some : forall ds v, (exists ps, last_duty ds v = Some ps) <-> In v (map fst ds).
+Proof.
+  induction ds as [|d ds IH]; intros v; cbn.
+  - split; [intros [? H]; discriminate | intros []].
+  - rewrite <- IH. destruct (last_duty ds v) as [x|].
+    + split; eauto.
+    + destruct (N.eqb_spec (fst d) v) as [->|Hne].
+      * split; eauto.
+      * split; [intros [? H]; discriminate | intros [H|[? H]]; congruence].
+Qed.
+
+Lemma members_keys : forall i v, In v (map fst (members i)) <->
+  exists ds, si_duties i = Some ds /\ In v (map fst ds).
+Proof.
+  intros i v. unfold members. destruct (si_duties i) as [ds|].
+  - split.
+    + intros H. exists ds. split; [reflexivity|]. apply last_duty_some.
+      apply in_map_iff in H. destruct H as ([v' ps] & <- & H). exists ps. apply message_indices_In. exact H.
+    + intros (ds' & Heq & H). injection Heq as <-. apply last_duty_some in H. destruct H as (ps & H).
+      apply message_indices_In in H. apply (in_map fst) in H. exact H.
+  - cbn. split; [intros [] | intros (? & H & _); discriminate].
+Qed.
+
+Lemma members_NoDup : forall i, NoDup (map fst (members i)).
+Proof. intros i. unfold members. destruct (si_duties i); [apply message_indices_NoDup | constructor]. Qed.
+
+Lemma has_account_spec : forall i v, has_account i v = true <->
+  exists a, si_accts i = Some a /\ In v a /\ In v (si_indices i).
+Proof.
+  intros i v. unfold has_account. destruct (si_accts i) as [a|].
+  - rewrite andb_true_iff, !memN_In. split; [intros [H1 H2]; eauto | intros (a' & Heq & H1 & H2); injection Heq as <-; auto].
+  - split; [discriminate | intros (? & H & _); discriminate].
+Qed.
